@@ -46,7 +46,7 @@ def discover(fnmap):
         for p in fn.ptypes:
             if p.kind in ("tag", "empty"):
                 continue
-            k = {"batch": "B", "bool": "M", "cbatch": "C", "scalar": "S", "mem": "P"}.get(p.kind)
+            k = {"batch": "B", "bool": "M", "cbatch": "C", "scalar": "S", "mem": "P", "rows": "R"}.get(p.kind)
             if not k:
                 bad = True
                 break
@@ -180,6 +180,10 @@ def verify_one(task):
     elif task["backend"] == "z3":
         cb += ["--z3"]
     rc, out, t3 = _run(cb + [gb2], task.get("timeout", 120))
+    if "too many addressed objects" in out:
+        cb[cb.index("--object-bits") + 1] = "12"
+        rc, out, t3b = _run(cb + [gb2], task.get("timeout", 120))
+        t3 += t3b
     res["seconds"] = t1 + t2 + t3
     res["solver_seconds"] = t3
     for f in (gb, gb2):
@@ -221,6 +225,10 @@ def verify_one(task):
         res.update(status="infra", detail="vacuity canary did not fail: preconditions contradictory or harness unreachable")
     elif res["n_post"] == 0 and not task.get("plain"):
         res.update(status="infra", detail="no postcondition obligation generated")
+    elif any(p["status"] != "FAILURE" for p in failed):
+        # ERROR / UNKNOWN: the decision procedure gave up (SMT back ends on large problems); not an answer
+        res.update(status="undecided", detail="back end %s returned %s for %d obligations" % (task["backend"], sorted(set(p["status"] for p in failed)), len(failed)))
+        res["failed"] = []
     elif failed:
         res.update(status="failed", detail="; ".join(p["property"] for p in failed[:5]))
     else:
